@@ -34,7 +34,7 @@ def gen(rng, broker, tier):
     endpoint = rng.choice(["/healthz", "/health", "/h/c", "/"])
     clients = []
     for i in range(rng.randint(1, 10)):
-        kind = rng.choice(["get", "get", "get", "other-path", "post", "truncated", "binary", "big", "split", "idle", "burst",
+        kind = rng.choice(["get", "get", "get", "other-path", "post", "truncated", "binary", "big", "split", "idle", "burst", "mangled",
                            "late-request"])
         clients.append({"kind": kind, "at_us": rng.choice([rng.randint(0, 2_500_000), rng.randint(0, 2_500_000), -200_000, 9_000_000]),
                         "n": rng.randint(2, 50) if kind == "burst" else 1, "parts": rng.randint(2, 5),
@@ -147,6 +147,11 @@ async def _main(sim, sc, out):
             return [good]
         if k == "other-path":
             return [b"GET " + ep + b"x HTTP/1.1\r\nHost: x\r\n\r\n"]
+        if k == "mangled":
+            # bytes that are not valid UTF-8 inside the method or the path: another method / another path, i.e. 404
+            variants = [b"GET " + ep[:-1] + b"\xff" + ep[-1:], b"GET " + ep + b"\xfe", b"G\x80ET " + ep, b"GET " + ep + b"\xe2\x82",
+                        b"GET \xc3" + ep]
+            return [variants[c.get("parts", 2) % len(variants)] + b" HTTP/1.1\r\nHost: x\r\n\r\n"]
         if k == "post":
             return [b"POST " + ep + b" HTTP/1.1\r\nContent-Length: 0\r\n\r\n"]
         if k == "truncated":
@@ -256,7 +261,7 @@ async def _main(sim, sc, out):
                     "wrong-status", f"C20/mem/get-answered-{st}-expected-{'/'.join(sorted(want))}/"
                     f"{'connection-opened-before-failure' if tf is not None and a['at'] < tf else 'plain'}",
                     request=k, raw=a["raw"], after_failure_us=None if tf is None else arrival - tf))
-        elif k in ("other-path", "post"):
+        elif k in ("other-path", "post", "mangled"):
             if st != "404":
                 V.append(violation("wrong-status", f"C20/mem/{k}-answered-{st}-expected-404", raw=a["raw"]))
         elif k == "big":
